@@ -40,9 +40,11 @@ const (
 func (a c08Act) String() string { return [...]string{"reply+next", "reply", "next", "none"}[a] }
 
 type c08Pkt struct {
-	Sid uint32
-	Seq int
-	Act c08Act
+	Sid   uint32
+	Seq   int
+	Act   c08Act
+	Flags int // header flag octet (the property does not depend on it)
+	Type  int // packet type 1..3 (0 = 1); the property does not depend on it either
 }
 
 // c08Model is the executable statement of the property for one connection.
@@ -121,9 +123,17 @@ func histKey(h []c08Pkt) string {
 	ids := map[uint32]byte{}
 	for _, p := range h {
 		if _, ok := ids[p.Sid]; !ok {
-			ids[p.Sid] = byte('A' + len(ids))
+			ids[p.Sid] = byte(len(ids))
 		}
-		fmt.Fprintf(&sb, "%c%d/%d ", ids[p.Sid], p.Seq, p.Act)
+		name := string(rune('A' + int(ids[p.Sid])%26))
+		if ids[p.Sid] >= 26 {
+			name = fmt.Sprintf("S%d:", ids[p.Sid])
+		}
+		fmt.Fprintf(&sb, "%s%d/%d", name, p.Seq, p.Act)
+		if p.Flags != 0 || p.Type > 1 {
+			fmt.Fprintf(&sb, "(f%x,t%d)", p.Flags, p.Type)
+		}
+		sb.WriteByte(' ')
 	}
 	return sb.String()
 }
@@ -149,8 +159,12 @@ func (c *c08Runner) play(h []c08Pkt) {
 		want, reason := m.predict(p)
 		contID := fmt.Sprintf("cont:%d:%d:%d", c.connNo, p.Sid, i)
 		c.pl.act, c.pl.contID = p.Act, contID
-		hd := rfc8907.Header{Major: 0xc, Minor: 0, Type: 1, Seq: p.Seq, Session: p.Sid}
-		_, _, invs, st, err := c.srv.step(conn, pktSpec{H: hd, Clear: c05Body(c.r, 1, 9, false)}.wire(c.secret))
+		typ := p.Type
+		if typ == 0 {
+			typ = 1
+		}
+		hd := rfc8907.Header{Major: 0xc, Minor: 0, Type: typ, Seq: p.Seq, Flags: p.Flags, Session: p.Sid}
+		_, _, invs, st, err := c.srv.step(conn, pktSpec{H: hd, Clear: c05Body(c.r, typ, 9, false)}.wire(c.secret))
 		if err != nil {
 			b.Inconclusive("history %q: %v", key, err)
 			return
@@ -296,7 +310,12 @@ func runC08(b *mon.B) {
 				seq = 255
 			}
 			act := c08Act(r.Pick(0, 0, 0, 1, 2, 3))
-			h = append(h, c08Pkt{Sid: sid, Seq: seq, Act: act})
+			pk := c08Pkt{Sid: sid, Seq: seq, Act: act}
+			if k%2 == 1 { // every other history varies the flag octet and the packet type per packet
+				pk.Flags = r.Pick(0, 4, 4, 1, 5, 0xf4)
+				pk.Type = 1 + r.Intn(3)
+			}
+			h = append(h, pk)
 			if seq%2 == 1 && seq > last {
 				cur[sid] = seq
 			}
@@ -316,6 +335,25 @@ func runC08(b *mon.B) {
 			h2 = append(h2, c08Pkt{Sid: 78, Seq: 3, Act: actReply})
 			c.play(h2)
 		}
+	}
+	// ---- many sessions open at once on one connection, then the oldest ones are revisited
+	for rep := 0; rep < b.N(2, 40); rep++ {
+		n := r.Pick(65, 70, 129, 140, 300)
+		base := r.U32() &^ 0xfff
+		var h []c08Pkt
+		for i := 0; i < n; i++ {
+			h = append(h, c08Pkt{Sid: base + uint32(i), Seq: 1, Act: actReplyNext})
+		}
+		victim := base + uint32(r.Intn(3))
+		switch rep % 3 {
+		case 0:
+			h = append(h, c08Pkt{Sid: victim, Seq: 1, Act: actReply}) // replay of a used number: reject
+		case 1:
+			h = append(h, c08Pkt{Sid: victim, Seq: 3, Act: actReply}) // follow-up: that session's continuation
+		case 2:
+			h = append(h, c08Pkt{Sid: victim, Seq: 2, Act: actReply}) // the server's own number: reject
+		}
+		c.play(h)
 	}
 	b.Count("distinct_histories", len(c.seen))
 	_ = simnet.KClose
